@@ -15,7 +15,8 @@
    Proofs/, followed by Print Assumptions; and Examples (non-vacuity, monitor rejections). *)
 From SC Require Import Lib.Prelude Lib.Int Lib.Host Model.Rwa Model.RwaCompliance Model.RwaIdentity
   Run.C04Compliance Run.C04Identity Run.C04
-  Proofs.Rwa Proofs.RwaPrefix Proofs.C04Monitor Proofs.RwaCompliance Proofs.RwaIdentity Proofs.C04Examples.
+  Proofs.Rwa Proofs.RwaPrefix Proofs.C04Monitor Proofs.RwaCompliance Proofs.RwaIdentity Proofs.C04Composed
+  Proofs.C04Examples.
 
 (* ------------------------------------------------------------------------------------------ *)
 (* GATES.  In ANY state (so in particular in every reachable one), for any authorisation set and
@@ -207,7 +208,8 @@ Print Assumptions C04_monitor_accepts_model.
    registered for the hook receive - in registration order, each one once - exactly that
    notification with the exact arguments; can_transfer / can_create return true iff every
    registered module approves, the modules being asked in order up to the first refusal;
-   add / remove / bind / unbind change exactly what they say and call nobody. *)
+   add / remove / bind / unbind change exactly what they say and call nobody; the mere passage of
+   ledgers changes nothing. *)
 Theorem C04_compliance_dispatch : forall (cf : ccfg) (s : cstate) (c : ccall) (s' : cstate) (r : cret),
   cstep cf s c = (s', Ok r) ->
   match cc_op c with
@@ -245,6 +247,7 @@ Theorem C04_compliance_dispatch : forall (cf : ccfg) (s : cstate) (c : ccall) (s
   | CUnbind t opr =>
       has_auth (cc_auths c) opr = true /\ In t (bound s) /\
       bound s' = remove_first t (bound s) /\ mods s' = mods s /\ mlog s' = []
+  | CAdvance _ => mods s' = mods s /\ bound s' = bound s /\ mlog s' = []   (* time alone changes nothing *)
   end.
 Proof. exact dispatch. Qed.
 Print Assumptions C04_compliance_dispatch.
@@ -307,6 +310,35 @@ Theorem C04_identity_monitor_accepts_model : forall cs : list icall,
   check (observe_identity_model cs) = (0%N, 0%N, 0%N).
 Proof. exact check_identity_accepts_model. Qed.
 Print Assumptions C04_identity_monitor_accepts_model.
+
+(* ------------------------------------------------------------------------------------------ *)
+(* THE LAYERS TOGETHER.  When the answers the token receives during a call are the ones the
+   library's own compliance contract (in state [cst], modules [deny] refusing) and the library's
+   own identity verifier (in the world [w]) compute, a successful transfer / transfer_from means:
+   not paused, nobody frozen, amount within the unfrozen balance, BOTH PARTIES VERIFIED in the sense
+   of the claim registry ([verified]: registered identity holding, for every required topic, an
+   accepted matching claim of a trusted issuer) and NO compliance module registered for the
+   CanTransfer hook refuses; a successful mint: recipient verified, no CanCreate module refuses. *)
+Theorem C04_gates_composed : forall (hc : hostcfg) (s : state) (c : call) (s' : state) (r : ret)
+    (cf : ccfg) (cst : cstate) (deny : list addr) (w : iworld),
+  ((forall a, idv_ok (c_orc c) a = is_ok (iverify_identity w a)) /\
+   (forall f t amt tok, Some (o_can_transfer (c_orc c)) =
+      match snd (cstep cf cst (mkCC (CCanTransfer f t amt tok) [] deny)) with Ok r => r | Fail => None end) /\
+   (forall t amt tok, Some (o_can_create (c_orc c)) =
+      match snd (cstep cf cst (mkCC (CCanCreate t amt tok) [] deny)) with Ok r => r | Fail => None end)) ->
+  step hc s c = (s', Ok r) ->
+  match c_op c with
+  | Transfer from to amt | TransferFrom _ from to amt =>
+      paused s = false /\ aflag s from = false /\ aflag s to = false /\
+      0 <= amt <= bal s from - frozen s from /\
+      verified w from = true /\ verified w to = true /\
+      (forall m, In m (mods cst HCanTransfer) -> ~ In m deny)
+  | Mint to amt _ =>
+      0 <= amt /\ verified w to = true /\ (forall m, In m (mods cst HCanCreate) -> ~ In m deny)
+  | _ => True
+  end.
+Proof. exact gates_composed. Qed.
+Print Assumptions C04_gates_composed.
 
 (* ------------------------------------------------------------------------------------------ *)
 (* Non-vacuity: on a non-trivial reachable state (0 holds 100 / 80 frozen / address-frozen,
@@ -426,3 +458,26 @@ Example C04_identity_monitor_rejects :
   check (observe_identity_model [bad]) = (0%N, 0%N, 0%N) /\
   check (iset_out (Ok IUnit) (observe_identity_model [bad])) = (1%N, 1%N, 0%N).
 Proof. vm_compute. split; reflexivity. Qed.
+
+(* Persistence: the monitor rejects state that changes although no call changed it - after a long
+   ledger gap a freeze flag / frozen amount / pause flag / collaborator link that has silently
+   lapsed, a compliance module list or a token binding that has disappeared, verifier links lost. *)
+Example C04_monitor_rejects_lapsed_state :
+  let h := ex_history ++ [by3 (Pause 3%N); by3 (Advance 4000000)] in
+  check (ex_trace h) = (0%N, 0%N, 0%N) /\
+  snd (fst (check (tamper (set_accts [(100, 80, false); (40, 15, false); (0, 0, false); (0, 0, false)]) (ex_trace h)))) = 9%N /\
+  snd (fst (check (tamper (set_accts [(100, 0, true); (40, 15, false); (0, 0, false); (0, 0, false)]) (ex_trace h)))) = 9%N /\
+  snd (fst (check (tamper (set_accts [(0, 0, false); (40, 15, false); (0, 0, false); (0, 0, false)]) (ex_trace h)))) = 9%N /\
+  snd (fst (check (tamper (set_paused_obs false) (ex_trace h)))) = 9%N /\
+  snd (fst (check (tamper (set_links false true) (ex_trace h)))) = 9%N /\
+  snd (fst (check (tamper (set_links true false) (ex_trace h)))) = 9%N.
+Proof. vm_compute. repeat split; reflexivity. Qed.
+
+Example C04_compliance_monitor_rejects_lapsed_state :
+  let ok := cex_trace (cex_history ++ [mkCC (CAdvance 4000000) [] []]) in
+  check ok = (0%N, 0%N, 0%N) /\
+  snd (fst (check (cset_obs (mkCObs [[]; []; []; [21; 20; 22]%N; []] [true; false] []) ok))) = 8%N /\   (* a module list gone *)
+  snd (fst (check (cset_obs (mkCObs [[21; 20; 22]%N; []; []; [21; 20; 22]%N; []] [false; false] []) ok))) = 8%N /\ (* a binding gone *)
+  check (observe_identity_model [mkIC (IAdvance 4000000) (iex_world []); mkIC ILinks (iex_world [])]) = (0%N, 0%N, 0%N) /\
+  snd (fst (check (iset_out (Ok (ILinked false true)) (observe_identity_model [mkIC ILinks (iex_world [])])))) = 1%N.
+Proof. vm_compute. repeat split; reflexivity. Qed.
